@@ -35,7 +35,8 @@ def generate(seed, scratch):
             if "items" in world["files"][p]:
                 _dot_includes(world["files"][p]["items"], rs, cfg["dot_includes"])
     return {"property": PID, "seed": seed, "world": world, "cfg": cfg,
-            "schedule": {"rp_evict": "all" if rs.random() < 0.3 else sorted(rs.sample(range(60), 4)),
+            "schedule": {"root_alias": rs.random() < 0.3,
+                         "rp_evict": "all" if rs.random() < 0.3 else sorted(rs.sample(range(60), 4)),
                          "cli": rs.random() < 0.5}}
 
 
@@ -137,7 +138,17 @@ def execute(case, scratch):
         def viol(cls, detail):
             return {"verdict": "violation", "stats": stats, "violation": {"class": cls, "detail": detail}}
 
-        od = core.run_api(world, top)["obs"][0]
+        # the analysis root itself may be named through a directory link
+        kw = {}
+        if sched.get("root_alias"):
+            la = os.path.join(top, os.path.dirname(world["root"]), "Lroot")
+            if not os.path.lexists(la):
+                os.symlink(os.path.basename(world["root"]), la)
+            kw = {"root": la, "cwd": la}
+            stats["faults"]["root_alias"] = 1
+        spec = core.api_spec(world, top)
+        spec.update(kw)
+        od = runners.run_fresh("api_run", spec)["obs"][0]
         oc = core.run_api(cw, topc)["obs"][0]
         stats["variants"] += 2
         if oc["exc"]:
